@@ -311,7 +311,7 @@ func c32KeyCols(t *hTable) string {
 	var p []string
 	for _, c := range t.Cols {
 		if c.PK {
-			p = append(p, c.Type)
+			p = append(p, fmt.Sprintf("%s#%d", c.Type, c.Ord))
 		}
 	}
 	return strings.Join(p, ",")
